@@ -37,7 +37,12 @@ RULE = ("static: one evaluation = the regenerated call graph of the whole workin
         "a middle one of the consumed bytes is inverted; MakeGAB with unusual groups - bytes read, width, repetition of b), c19.retry "
         "(a scripted key-exchange server answers set_client_DH_params with well-formed dh_gen_retry / dh_gen_fail / dh_gen_ok: every "
         "g_b the real client sends has >= 256 bytes read from the OS source since the server's previous answer and is no g^k multiple, "
-        "|k| <= 16, of an earlier one); distinct = distinct operation lines")
+        "|k| <= 16, of an earlier one), c19.fault (crypto/rand.Reader is a source of the harness that hands out a seeded stream and, from "
+        "its k-th Read on, fails for good / fails once / is at io.EOF / delivers half and fails / delivers one byte per Read - k at "
+        "the Read of every secret: during a complete real key exchange against the scripted server (nonce, new_nonce, g_b read off "
+        "the wire) and under each generator called directly; every secret that is still emitted must be backed by at least as many "
+        "delivered bytes as the secrets emitted so far are wide, and the same experiment made twice (same stream, same fault, same "
+        "peer) must emit the same secrets - the client may stop however it likes); distinct = distinct operation lines")
 
 C19MOD = os.path.join(vlib.VERIF, "harness-c19")
 C19BIN = os.path.join(vlib.BUILD, "c19graph")
